@@ -76,10 +76,18 @@ pub enum CKey {
     DenyTransfer,
     DenyCreate,
     Log,
+    /// the `can_*` questions asked since the last `clear_questions` (survives only in successful calls)
+    Questions,
 }
 
 #[contract]
 pub struct MockCompliance;
+
+fn qlog(e: &Env, c: HookCall) {
+    let mut l: Vec<HookCall> = e.storage().persistent().get(&CKey::Questions).unwrap_or(Vec::new(e));
+    l.push_back(c);
+    e.storage().persistent().set(&CKey::Questions, &l);
+}
 
 fn clog(e: &Env, c: HookCall) {
     let mut l: Vec<HookCall> = e.storage().persistent().get(&CKey::Log).unwrap_or(Vec::new(e));
@@ -106,11 +114,19 @@ impl MockCompliance {
     pub fn destroyed(e: &Env, from: Address, amount: i128, token: Address) {
         clog(e, HookCall { kind: 2, a: from.clone(), b: from, amount, token });
     }
-    pub fn can_transfer(e: &Env, _from: Address, _to: Address, _amount: i128, _token: Address) -> bool {
+    pub fn can_transfer(e: &Env, from: Address, to: Address, amount: i128, token: Address) -> bool {
+        qlog(e, HookCall { kind: 3, a: from, b: to, amount, token });
         !e.storage().persistent().get(&CKey::DenyTransfer).unwrap_or(false)
     }
-    pub fn can_create(e: &Env, _to: Address, _amount: i128, _token: Address) -> bool {
+    pub fn can_create(e: &Env, to: Address, amount: i128, token: Address) -> bool {
+        qlog(e, HookCall { kind: 4, a: to.clone(), b: to, amount, token });
         !e.storage().persistent().get(&CKey::DenyCreate).unwrap_or(false)
+    }
+    pub fn questions(e: &Env) -> Vec<HookCall> {
+        e.storage().persistent().get(&CKey::Questions).unwrap_or(Vec::new(e))
+    }
+    pub fn clear_questions(e: &Env) {
+        e.storage().persistent().remove(&CKey::Questions);
     }
 }
 
